@@ -106,7 +106,9 @@ def run(ctx):
         elif shuffled:
             ctx.note('shuffled listing: ' + ('degenerate fit (not judged)' if mon.last_fit_degenerate else 'regular fit'))
         else:
-            ctx.check(mon.last_fit_degenerate is False, 'fit:degenerate-on-ordered-pairs', cid, rfi=rfi.tolist(),
+            if mon.last_fit_degenerate == 'unrepresentable':
+                ctx.note('ordered pairs with a slope so steep that e^b is not representable (structure not evaluable, not judged)')
+            ctx.check(mon.last_fit_degenerate in (False, 'unrepresentable'), 'fit:degenerate-on-ordered-pairs', cid, rfi=rfi.tolist(),
                       mef=mef.tolist(), params=[float(v) for v in o.value[2]])
         ctx.case_done(class_key=('arbitrary', 'shuffled' if shuffled else 'ordered', k), nontrivial=True,
                       distinct_key=core.digest(rfi, mef))
